@@ -11,6 +11,14 @@ claim("C02", "other",
       STRUCT + "CONST-1 — all 39+ layout constants and width discriminants evaluate to the values transcribed from the DLT PRS; ORD-1 — header fields big-endian, storage-header timestamps little-endian, payload in message order.",
       "Not decided: verdict equivalence with a reference decoder over all byte strings." + TB,
       "compiler-evaluated constants vs spec table + ORD-1", "DESIGN §4 C02")
+claim("C03", "proof",
+      "PANIC: every panic-capable site (MIR Assert terminators for overflow / bounds / division, range indexing, split_at, byteorder reads, debug_assert, deny-listed callees) reachable from dlt_message (both storage modes, any filter), dlt_consume_msg, skip_storage_header, forward_to_next_storage_header, dlt_zero_terminated_string and construct_arguments is discharged for unconstrained inputs by abstract interpretation: dlt_message_intern in context (partitioned on storage mode, find outcome, header-type and message-info flag bits), the argument parser dlt_argument modularly under the nom suffix contract, which is verified on its own exits (NOMC). WRITER: Message::{as_bytes,byte_len} and Argument::{len,valid,as_bytes,is_empty} are discharged under the interface invariant I(Message) (string/raw lengths <= 65534, overall_length fits u16); IMSG: the guarantee side of I(Message) is verified for parser results (containers of a returned Argument are bounded by its input, dlt_argument only runs inside the declared payload, overall_length() of the parsed header discharged in context).",
+      "Not decided: panics inside dependencies (nom, memchr, bytes, log, format!), allocation failure. 'Each argument passes the validity check' is not decided. I(Message) for hand-built messages is an assumption, not a guarantee." + TB,
+      "abstract interpretation over MIR (linear byte accounting, trace partitioning on header flag bits, assume/guarantee cut at dlt_argument) enumerating and discharging every Assert / precondition site", "DESIGN §4 C03")
+claim("C04", "proof",
+      "CONS: on each of the 576 Ok exit partitions of dlt_message_intern (storage mode x find outcome x 5 header-type bits x verbose bit x result kind) the returned remainder is input[A+L..] with A the start of the standard header (0, or first pattern + 16) and L the big-endian u16 length field at A+2, as a linear identity derived from the nom contracts; FilteredOut(n) carries n = L - (4 + 4*WEID + 4*WSID + 4*WTMS + 10*UEH); A+L >= 4 (strict suffix, progress); dlt_consume_msg returns input[16+L..] and reports 16+L, 'None' only on empty input. FLOW: the filter argument reaches only filtered_out.",
+      "Not decided: library parsers are trusted to honour the nom contract." + TB,
+      "abstract interpretation: (base, offset, length) slices with linear offsets, exits compared with the declared-length identity per partition", "DESIGN §4 C04")
 claim("C05", "other",
       STRUCT + "CALL-S — every nom primitive reachable (resolved call graph incl. closures and fn-item values) from dlt_message / dlt_consume_msg is a streaming one; complete primitives and Incomplete-swallowing combinators are rejected (one allow-listed complete::be_u8 behind the length verdict).",
       "Not decided: hints produced inside nom; value-dependent hard errors inside the available bytes." + TB,
@@ -57,5 +65,5 @@ claim("C19", "proof",
       "Trusted: nom's take_while_m_n / take streaming contracts, std from_utf8 (valid_up_to = longest valid prefix)." + TB,
       "abstract interpretation over slices with linear byte accounting + nom combinator contracts", "DESIGN §4 C19")
 
-for _p in ["C03","C04","C09","C11","C15","C16"]:
+for _p in ["C09","C11","C15","C16"]:
     NOT_YET[_p] = "check not armed yet in this build round (needs the abstract-interpretation layer, DESIGN §7 steps 3-5); no verdict is claimed until the rule runs"
